@@ -108,6 +108,21 @@ CHECKS = {
         technique="TLA+ scenario-level state machine vs reference choice (TLC); TLC-computed scenario table concretised and replayed",
         design="4/C01",
     ),
+    "C17": dict(
+        specs=["GuardR.tla", "Guardrails.tla", "GuardIO.tla"],
+        text="GuardR states the masking algebra (environmental key, static keys, reversed-configuration guard mask), the "
+        "checksum and the guard configuration layout with the sizes as parameters. At small sizes TLC checks for all keys, "
+        "bodies, option sets and single corruptions that the recovery procedure (most common gram per key length, first "
+        "checksum match) returns the original configuration and key and never reports a configuration whose checksum "
+        "does not match. At the real sizes 6144/2048 TLC renders protected areas (key-length classes x option subsets x "
+        "corruption kinds x sparse/dense configuration) which the harness embeds raw or inside a XorEncoded PE at offset 0 / "
+        "mid / end and runs through BeaconConfig.from_bytes and iter_guardrail_configs_with_beacon; what was reported is judged "
+        "by TLC (checksum relation, unmask algebra, completeness).",
+        note="Trusted: TLC, GuardR, ref/guard.py (cross-checked byte for byte with GuardR.Protect each run). Configurations are "
+        "zero-padded; corruptions stay outside the last 2048 configuration bytes; keys compared modulo primitive period.",
+        technique="TLA+ model of protect/corrupt/recover checked by TLC at small sizes; TLC-rendered real-size areas replayed; reports judged by TLC",
+        design="4/C17",
+    ),
 }
 
 NOT_YET = "check not built yet in this round; planned in DESIGN.md section 4"
